@@ -56,6 +56,17 @@ CORPUS = os.path.join(common.VERIF, "corpus", "C01")
 # --------------------------------------------------------------------------
 
 def gen(ctx):
+    # C01 re-checks the theorems of other properties that coq/PANIC_MAP.json cites: their property files must
+    # build against the CURRENT source, so their regenerated fragments are refreshed first (each gen is a source scan)
+    import importlib
+    for f in sorted(os.listdir(os.path.join(common.VERIF, "lib", "props"))):
+        if f.startswith("C") and f.endswith(".py") and f[:-3] != "C01":
+            try:
+                mod = importlib.import_module("props." + f[:-3])
+                if hasattr(mod, "gen"):
+                    mod.gen(common.Ctx(f[:-3], "quick", 1))
+            except Exception as e:      # reported when the citations are compiled
+                common.log("C01 gen: regenerating the fragments of %s failed: %r" % (f[:-3], e))
     panicsites.generate()
 
 
